@@ -429,10 +429,17 @@ func VerifC16ComponentOptions() {
 	lamSeen := 0
 	g := NewGraph[[]*schema.Message, *schema.Message]()
 	_ = g.AddChatModelNode("ma", &c16Model{"ma", &rec})
-	_ = g.AddLambdaNode("conv", InvokableLambdaWithOption(func(ctx context.Context, in *schema.Message, opts ...c16OptA) ([]*schema.Message, error) {
-		lamSeen += len(opts)
-		return []*schema.Message{in}, nil
-	}))
+	if vchoose("lambdaOptionType", 2) == 0 {
+		_ = g.AddLambdaNode("conv", InvokableLambdaWithOption(func(ctx context.Context, in *schema.Message, opts ...c16OptA) ([]*schema.Message, error) {
+			lamSeen += len(opts)
+			return []*schema.Message{in}, nil
+		}))
+	} else { // a lambda that declares an interface as its option type is still not a chat model
+		_ = g.AddLambdaNode("conv", InvokableLambdaWithOption(func(ctx context.Context, in *schema.Message, opts ...any) ([]*schema.Message, error) {
+			lamSeen += len(opts)
+			return []*schema.Message{in}, nil
+		}))
+	}
 	_ = g.AddChatModelNode("mb", &c16Model{"mb", &rec})
 	_ = g.AddEdge(START, "ma")
 	_ = g.AddEdge("ma", "conv")
